@@ -155,3 +155,18 @@ Qed.
 Lemma vars_survive ps claims c :
   vars_of (add_claims claims (serve_ctx ps c)) = match ps with [] => vars_of c | _ => Some ps end.
 Proof. rewrite vars_of_claims. destruct ps; reflexivity. Qed.
+
+(* ---- CORS ---- *)
+Lemma cors_transparent regs m p : m <> "OPTIONS"%string ->
+  cors_serve (build regs) m p = CRouted (route_req (build regs) m p) /\
+  ((exists rs, cors_serve (build regs) m p = CRouted (Hit rs)) <-> has_match (registered regs) m p).
+Proof.
+  intro Hm. unfold cors_serve. destruct (String.eqb m "OPTIONS") eqn:E; [apply String.eqb_eq in E; congruence|].
+  split; [reflexivity|]. rewrite <- (hits_iff _ _ m p (rel_build regs)). rewrite route_req_eq. split.
+  - intros (rs & H). destruct (hits (build regs) m p); [|discriminate].
+    destruct (methods_allowed (build regs) m (clean p)); inversion H.
+  - intro H. destruct (hits (build regs) m p) as [|h l]; [congruence|]. eexists. reflexivity.
+Qed.
+
+Lemma cors_preflight tb p : cors_serve tb "OPTIONS" p = CPreflight.
+Proof. reflexivity. Qed.
